@@ -20,6 +20,7 @@ along with evo.  If not, see <http://www.gnu.org/licenses/>.
 
 import json
 import logging
+import os
 import typing
 from pathlib import Path
 
@@ -84,8 +85,14 @@ def merge_dicts(first: dict, second: dict, soft: bool = False) -> dict:
 
 
 def write_to_json_file(json_path: Path, dictionary: dict) -> None:
-    with open(json_path, 'w') as json_file:
+    # Write to a temporary file first and replace the destination atomically,
+    # so that readers never see an empty or partially written file.
+    json_path = Path(json_path)
+    tmp_path = json_path.with_name("{}.{}.tmp".format(json_path.name,
+                                                      os.getpid()))
+    with open(tmp_path, 'w') as json_file:
         json_file.write(json.dumps(dictionary, indent=4, sort_keys=True))
+    os.replace(tmp_path, json_path)
 
 
 def reset(destination: Path = DEFAULT_PATH,
@@ -107,8 +114,7 @@ def initialize_if_needed() -> None:
     Initialize evo user folder after first installation
     (or if it was deleted).
     """
-    if not USER_ASSETS_PATH.exists():
-        USER_ASSETS_PATH.mkdir()
+    USER_ASSETS_PATH.mkdir(exist_ok=True)
 
     if not USER_ASSETS_VERSION_PATH.exists():
         open(USER_ASSETS_VERSION_PATH, 'w').write(__version__)
